@@ -53,6 +53,21 @@ CHECKS.update({
              "per-thread sends / scenario announcements after the stop request (queue puts are logged under the queue's own mutex). Rate limiting is not covered yet."),
 })
 
+CHECKS["C14"] = dict(engine="AuthCache", design_ref="§5 C14, App. F.3",
+    technique="TLA+ AuthCache.tla (double-checked locking with expiry) model-checked by TLC for all interleavings; TLC behaviours and the "
+              "counterexample of the design without re-check forced step by step onto real threads calling the real caching provider; fetch logs judged "
+              "by AuthCacheJudge.tla; Requests.tla enumerates credential/override configurations, the real engine runs them in all phases and every "
+              "received request is judged by RequestsTrace.tla",
+    text="Model checking + schedule replay + trace validation. The auth cache's fetch-once property is checked on the TLA+ model for 3 threads x 2 keys x all "
+         "interleavings (and TLC refutes the design without the in-lock re-check); simulated behaviours are forced onto the real CachingAuthProvider/"
+         "KeyedCachingAuthProvider through hook points with a model-driven clock and the recorded fetch log must equal the model's; free-running thread "
+         "storms are judged too. For presence/precedence, TLC enumerates carrier configurations (--header, --auth, --set-query/-header/-cookie/-path, auth "
+         "provider at schema/global scope) x declared same-named parameters; the real engine runs examples, coverage, fuzzing, stateful and link-derived "
+         "requests and EVERY request received by the scripted API is validated in TLC against the user's values.",
+    note=COMMON_TRUST + "; harness/compat.py restores OpenAPI link routing on the installed Hypothesis so link-derived requests exist; ignored_auth "
+         "probes are not enabled (the probe exception is not exercised); no order among user layers is asserted; --auth + global provider is excluded "
+         "(the engine deliberately unregisters the global provider)")
+
 REASON_PENDING = "no check registered yet: spec/harness for this property is still being built (DESIGN.md §10 build order); nothing is claimed"
 
 
